@@ -335,8 +335,9 @@ def c08_d(ctx: Ctx):
     ys = [n for n in body_nodes(sp) if isinstance(n, ast.Yield) and n.value is not None]
     open_tail = [y for y in ys if isinstance(y.value, ast.Subscript) and isinstance(y.value.slice, ast.Slice) and y.value.slice.upper is None]
     whole = [y for y in ys if isinstance(y.value, ast.Name)]
-    floor = any(isinstance(n, ast.Assign) and any(isinstance(t, ast.Name) and t.id == "len_chunk" for t in n.targets)
-                and ("int(" in canon(n.value) or "//" in canon(n.value)) for n in body_nodes(sp))
+    # the chunk length: a local computed by floor division of the length of the input (whatever it is called)
+    floor = any(isinstance(n, ast.Assign) and len(n.targets) == 1 and isinstance(n.targets[0], ast.Name)
+                and ("int(" in canon(n.value) or "//" in canon(n.value)) and "len(" in canon(common.inline_at(ctx, sp, n.value, n)) for n in body_nodes(sp))
     if open_tail and whole:
         out.append(ctx.ok(R, sp, open_tail[0], "chunking ends with an open-ended slice (and yields the whole list when there is one chunk): no id is dropped"))
     elif floor and not open_tail:
@@ -347,4 +348,20 @@ def c08_d(ctx: Ctx):
     return out
 
 
-RULES = [c08_a, c08_b, c08_c, c08_d]
+@rule("C08-e")
+def c08_e(ctx: Ctx):
+    """The state point cache and the other per-project / per-job state are instance state: no mutable object bound in a class body is modified through an instance."""
+    from .lints import no_shared_mutable_class_state
+    return no_shared_mutable_class_state(ctx, "C08-e", ["signac.project:Project", "signac.job:Job", "signac.project:JobsCursor", "signac.job:_StatePointDict"],
+                                         "a project (or the project carried by a job) restored by pickle / copy.deepcopy with a reduced state would share one state point cache with every "
+                                         "other such project, and open_job(id=...) would answer with the state point of a job that exists only in another project")
+
+
+@rule("C08-f")
+def c08_f(ctx: Ctx):
+    """Per-job / per-entry loops are independent: nothing read in one iteration was computed in another."""
+    from .lints import per_item_loops
+    return per_item_loops(ctx, "C08-f", [('signac.project:Project._update_in_memory_cache', 'an id is cached with the state point read for another id'), ('signac.project:Project.update_cache', "the persistent cache receives another job's data"), ('signac.project:Project._read_cache', 'cache content of another read is reused')])
+
+
+RULES = [c08_a, c08_b, c08_c, c08_d, c08_e, c08_f]
